@@ -116,11 +116,19 @@ def _trim_fact():
     if fn is None:
         return False
 
-    from .snippets import find_trim
+    from .snippets import find_trim, find_trim_helper
     found = find_trim(fn)
+    helper_form = False
     if found is None:
-        return False
-    _, scan, depth_var, default = found
+        th = find_trim_helper(tree, fn)
+        if th is None:
+            return False
+        # extracted helper: `for ...: if start <= pos <= end: return depth` / `return 0`
+        _call, _h, scan, hit, default = th
+        helper_form = True
+        depth_var = None
+    else:
+        _, scan, depth_var, default = found
     if not (isinstance(scan.target, ast.Tuple) and len(scan.target.elts) >= 4):
         return False
     elts = scan.target.elts
@@ -135,6 +143,13 @@ def _trim_fact():
             and isinstance(t.left, ast.Name) and t.left.id == start and isinstance(t.comparators[0], ast.Name)
             and isinstance(t.comparators[1], ast.Name) and t.comparators[1].id == end):
         return False
+    if helper_form:
+        ok_hit = len(hit) == 1 and isinstance(hit[0], ast.Return) and isinstance(hit[0].value, ast.Name) and hit[0].value.id == depth
+        ok_default = (len(default) == 1 and isinstance(default[0], ast.Return) and isinstance(default[0].value, ast.Constant)
+                      and default[0].value.value == 0)
+        # the position compared is the helper's second parameter
+        pos_ok = len(_h.args.args) == 2 and t.comparators[0].id == _h.args.args[1].arg
+        return bool(ok_hit and ok_default and pos_ok)
     ok_body = any(isinstance(x, ast.Assign) and isinstance(x.value, ast.Name) and x.value.id == depth
                   and any(isinstance(tt, ast.Name) and tt.id == depth_var for tt in x.targets) for x in scan.body[0].body)
     ok_else = all(not isinstance(x, ast.Assign) or (isinstance(x.value, ast.Constant) and x.value.value == 0) for x in default)
